@@ -116,7 +116,28 @@ class Report:
                     "rule could not interpret the current source (fail closed): %s: %s\n%s" % (type(e).__name__, e, tb))
 
     # finish ---------------------------------------------------------------------------------
+    def control_obligations(self):
+        """Every function a rule of this check looked up is interpreted as structured code: fall-through path plus
+        `return Err(..)` / `?` error exits.  Any other escape (early success return, break, continue) is a path the
+        substitution-based rules do not follow - report it instead of silently reasoning about the fall-through only."""
+        import ir
+        if self.ctx._facts is None:
+            return
+        n = 0
+        for label, fn in sorted(self.ctx._facts.touched.values(), key=lambda t: t[0]):
+            esc = [x for x in ir.escapes(fn) if (label, ir.show(x)) not in REVIEWED_ESCAPES]
+            n += 1
+            self.ob("R-control", label, not esc,
+                    "%s is interpreted by this check as structured code (fall-through + error exits) but contains %s at line(s) %s: "
+                    "that path skips whatever follows it and nothing shows the property holds on it"
+                    % (label, sorted({ir.show(x)[:50] for x in esc}), [x.get("ln") for x in esc]),
+                    ir.loc(fn, esc[0]) if esc else ir.loc(fn))
+        if n:
+            self.clause("R-control", "none of the %d functions this check interprets leaves early except through an error exit (no early success return, break or continue), "
+                                     "so reasoning about the fall-through path covers every successful call" % n)
+
     def finish(self, level="other", explanation="", checker_cmd=""):
+        self.control_obligations()
         counts = {}
         for o in self.obs:
             c = counts.setdefault(o["rule"], [0, 0])
@@ -188,6 +209,13 @@ class Report:
             return 1
         print("OK property=%s obligations=%d discharged=%d known_findings=%d wall=%.1fs" % (self.prop, total, discharged, len(kf), wall))
         return 0
+
+
+# escapes that a rule models explicitly: (function, text of the escape) -> reason
+REVIEWED_ESCAPES = {
+    ("asynchro_sinc::make_interpolator", "return Box::new(interpolator)"):
+        "the three cfg/feature-gated early returns of the SIMD dispatch; R-C15-dispatch / R-C02-dispatch enumerate every return of this function",
+}
 
 
 def load_known():
